@@ -31,7 +31,7 @@ ANCHORS = [
     "acnportal.acnsim.interface:Interface._infrastructure_info",
     "acnportal.algorithms.utils:infrastructure_constraints_feasible",
 ]
-REQUIRED = ["schedules_given_as_a_mapping_other_than_dict", "malformed_candidates_with_tolerances_of_their_own_refused_before_judging", "schedules_in_which_every_station_discharges", "history_op:update_with_a_current_derived_from_the_registered_object", "schedules_whose_currents_cancel_across_stations", "schedules_of_over_1000_periods", "decisive_column_positions_judged", "integer_row_first_in_mapping", "explicit_tolerances_differ_from_network", "explicit_zero_tolerance_on_tolerant_network", "phasor_judged", "linear_judged", "near_boundary_judged", "constraint_free_sim_runs", "history_rejudged",
+REQUIRED = ["schedules_given_as_a_mapping_other_than_dict", "schedules_containing_nan_judged", "malformed_candidates_with_tolerances_of_their_own_refused_before_judging", "schedules_in_which_every_station_discharges", "history_op:update_with_a_current_derived_from_the_registered_object", "schedules_whose_currents_cancel_across_stations", "schedules_of_over_1000_periods", "decisive_column_positions_judged", "integer_row_first_in_mapping", "explicit_tolerances_differ_from_network", "explicit_zero_tolerance_on_tolerant_network", "phasor_judged", "linear_judged", "near_boundary_judged", "constraint_free_sim_runs", "history_rejudged",
             "history_op:remove_not_last", "history_op:update", "history_op:update_rename", "history_op:add",
             "regime:phasor-accept", "regime:phasor-reject", "regime:linear-accept", "regime:linear-reject",
             "regime:T>1", "regime:mixed-sign"]
@@ -367,6 +367,26 @@ def _judge(nd, S, obs, ts=1e-7, omit=False, oseed=0, use_defaults=False, tag=Non
                 obs.violate(f"{mode}_{nm}_vs_oracle", f"{nm} says {got}, oracle margin {m!r} (tol scale {ts})", **wit)
         if not (r_net == r_if == r_alg) or (r_alg1 is not None and r_alg1 != r_net):
             obs.violate(f"{mode}_checkers_disagree", f"network {r_net} interface {r_if} algorithm {r_alg} algorithm-1d {r_alg1}", **wit)
+    # a schedule with a NaN in it (0/0 in a sharing rule, a diverged optimiser): no aggregate current involving it lies within any
+    # limit, so wherever there is a constraint every checker says infeasible (or refuses the input) - in both modes
+    if A and rng.random() < 0.12:
+        Sn = np.array(Sm, dtype=float)
+        Sn[rng.randrange(Sn.shape[0]), rng.randrange(Sn.shape[1])] = float("nan")
+        sn_map = {i_: list(Sn[r_]) for r_, i_ in enumerate(ids)}
+        info_n = iface.infrastructure_info()
+        for linear in (False, True):
+            verdicts = {}
+            for nm_, call_ in (("network", lambda: net.is_feasible(Sn, linear=linear)), ("interface", lambda: iface.is_feasible(sn_map, linear=linear)),
+                               ("algorithm", lambda: icf(Sn, info_n, linear, at, rt))):
+                try:
+                    with np.errstate(all="ignore"):
+                        verdicts[nm_] = bool(call_())
+                except Exception:
+                    verdicts[nm_] = "raised"
+            obs.ev("schedules_containing_nan_judged")
+            if any(v_ is True for v_ in verdicts.values()):
+                obs.violate(("linear" if linear else "phasor") + "_checkers_disagree", f"a schedule containing NaN: {verdicts} (no aggregate current that "
+                            f"involves it lies within a limit)", network=nd, schedule=Sn.tolist(), mode="linear" if linear else "phasor", tag=tag)
     # linear conservative
     mp, ml = res["phasor"][0], res["linear"][0]
     if nonneg and abs(mp) > g and abs(ml) > g:
